@@ -1,6 +1,7 @@
 """C20 -- unmerge removes exactly what it owns and never base directories (DESIGN.md section 4, C20)."""
 import errno
 import os
+import types
 from pyvc.api import Task, call, Interp
 from pyvc.models import Model, ModelHost
 from pyvc.sym import SObj, OutOfSubset
@@ -81,22 +82,29 @@ def t_unmerge(ex):
 
 
 class CsetGhost(ModelHost):
-    """a contents set seen through its location-keyed operations (their meaning is C22's contract)"""
+    """a contents set seen through its location-keyed operations (their meaning is C22's contract); `entries`, when given, is what
+    iterating it yields (entries of the scenario, compared by identity)"""
 
-    def __init__(self, name, log):
-        self.name, self.log = name, log
+    def __init__(self, name, log, entries=None):
+        self.name, self.log, self.entries = name, log, entries
 
     def getattr(self, it, name):
         if name in ("difference", "intersection", "difference_update"):
             def op(it_, other):
                 arg = other.name if isinstance(other, CsetGhost) else tuple(_items(it_, other))
                 self.log.append((self.name, name, arg))
-                return CsetGhost(f"{self.name}.{name}({arg})", self.log)
+                left = None
+                if self.entries is not None:
+                    gone = {e.location for e in (other.entries if isinstance(other, CsetGhost) else arg)}
+                    left = [e for e in self.entries if (e.location in gone) == (name == "intersection")]
+                return CsetGhost(f"{self.name}.{name}({arg})", self.log, left)
             return Model(op, f"contentsSet.{name}")
         raise OutOfSubset(f"contentsSet.{name} is not one of the location-keyed operations the contract allows here")
 
     def iterate(self, it):
-        raise OutOfSubset("iterating a contents set: entries compare by all their attributes, only the location-keyed operations are under contract (C22)")
+        if self.entries is None:
+            raise OutOfSubset("iterating a contents set: entries compare by all their attributes, only the location-keyed operations are under contract (C22)")
+        return list(self.entries)
 
 
 def _items(it, v):
@@ -104,19 +112,64 @@ def _items(it, v):
     return models.iter_concrete(it, v)
 
 
+# where the scenario's paths really live: /usr/lib is a symlink to lib64 on the live root, /opt/link to /srv/real
+REAL_DIRS = {"/usr/lib": "/usr/lib64", "/opt/link": "/srv/real"}
+CSET_SCENARIOS = [
+    # (old entries, new entries, what has to be removed)
+    (["/usr/bin/a", "/usr/share/doc"], ["/usr/bin/a"], ["/usr/share/doc"]),
+    (["/usr/lib/x", "/usr/lib/y", "/etc/c"], ["/usr/lib64/x", "/etc/c"], ["/usr/lib/y"]),          # old x is the new x under its real directory
+    (["/usr/lib64/x", "/opt/link/f"], ["/usr/lib/x", "/srv/real/g"], ["/opt/link/f"]),               # the other way round; f really is another file than g
+    (["/usr/lib/x"], [], ["/usr/lib/x"]),
+    ([], ["/usr/lib/x"], []),
+    (["/opt/link/f", "/srv/real/f", "/srv/real/h"], ["/srv/real/f"], ["/srv/real/h"]),
+    (["/usr/bin/a", "/usr/bin/b"], ["/usr/bin/a@"], ["/usr/bin/b"]),          # the new package installs the path as another kind of entry (@: a symlink)
+    (["/usr/bin/a@", "/etc/d/"], ["/usr/bin/a", "/etc/d@"], []),                # (/: a directory)
+]
+
+
 def t_csets(ex):
+    """get_replace_cset is install ∩ old by location.  get_remove_cset is old − install by location, less the old entries that, followed
+    through directory symlinks of the live root, are the very paths the new package installs (scenarios over a ghost root)"""
     import pkgcore.merge.engine as E
+    import pkgcore.fs.livefs as L
     which = ("get_remove_cset", "get_replace_cset")[ex.choose(2)]
     P = f"C20.MergeEngine.{which}"
     it = Interp(ex, label=P)
     log = []
-    csets = {"old_cset": CsetGhost("old", log), "install": CsetGhost("install", log)}
+    if which == "get_replace_cset":
+        csets = {"old_cset": CsetGhost("old", log), "install": CsetGhost("install", log)}
+        out = call(it, it.target(ENG, f"MergeEngine.{which}"), "ENGINE", csets)
+        ex.oblige(f"{P}.raises.nothing", not out.raised, kind="exceptional-postcondition")
+        if not out.raised:
+            ex.oblige(f"{P}.ensures.install_and_old_by_location", log == [("install", "intersection", "old")] and isinstance(out.value, CsetGhost))
+        return
+    i = ex.choose(len(CSET_SCENARIOS))
+    olds, news, want = CSET_SCENARIOS[i]
+    from pkgcore.fs import fs as F_
+
+    def mk(locs):
+        return [F_.fsSymlink(l[:-1], "target", strict=False) if l.endswith("@") else F_.fsDir(l[:-1], strict=False) if l.endswith("/") else F_.fsFile(l, strict=False) for l in locs]
+    csets = {"old_cset": CsetGhost("old", log, mk(olds)), "install": CsetGhost("install", log, mk(news))}
+
+    def resolver(it_):
+        def resolve(it__, location):
+            d, _, f = location.rpartition("/")
+            return REAL_DIRS.get(d, d) + "/" + f
+        return Model(resolve, "livefs._realpath_dir()", pure=True)
+    it.models[L._realpath_dir] = resolver
+    # building a contents set from entries: keyed by location, as C22 proves (later entries replace earlier ones of the same location)
+    def m_cset(it_, initial=None, mutable=False):
+        by_loc = {}
+        for e in (_items(it_, initial) if initial is not None else ()):
+            by_loc[e.location] = e
+        return CsetGhost("contentsSet(...)", log, list(by_loc.values()))
+    it.models[E.contents.contentsSet] = m_cset
     out = call(it, it.target(ENG, f"MergeEngine.{which}"), "ENGINE", csets)
-    ex.oblige(f"{P}.raises.nothing", not out.raised, kind="exceptional-postcondition")
+    ex.oblige(f"{P}.raises.nothing[scenario {i}]", not out.raised, kind="exceptional-postcondition")
     if out.raised:
         return
-    want = ("old", "difference", "install") if which == "get_remove_cset" else ("install", "intersection", "old")
-    ex.oblige(f"{P}.ensures.{'old_minus_install' if which == 'get_remove_cset' else 'install_and_old'}_by_location", log == [want] and isinstance(out.value, CsetGhost))
+    got = sorted(e.location for e in out.value.entries) if isinstance(out.value, CsetGhost) and out.value.entries is not None else None
+    ex.oblige(f"{P}.ensures.old_minus_install_by_real_location[scenario {i}: old {olds}, new {news}]", got == sorted(want), note=f"handed back {got}, expected {sorted(want)}")
 
 
 def t_protection(ex):
@@ -145,12 +198,18 @@ def t_protection(ex):
 
 
 # ------------------------------------------------------------------ bounded stand-in: real unmerges ----
+def _parents(path):
+    parts = path.split("/")
+    return ["/".join(parts[:i]) for i in range(1, len(parts))]
+
+
 def enum_unmerges(seed):
     import random
     import shutil
     import tempfile
     from pkgcore.fs import livefs, contents, ops
     from pkgcore.merge import engine, triggers
+    from pkgcore.fs import fs as F_
     scratch = tempfile.mkdtemp(prefix="c20.", dir=os.environ.get("PYVC_SCRATCH", "/var/tmp"))
     fails, cases = [], 0
     NAMES = ["usr/bin/a", "usr/bin/b", "usr/lib/x/c", "etc/conf", "opt/p/d", "opt/p/e", "opt/q", "usr/link", "opt/p/link"]
@@ -253,6 +312,62 @@ def enum_unmerges(seed):
                 if got != want and len(fails) < 4:
                     fails.append({"model": model, "detail": f"MergeEngine.uninstall({'offset=<root>' if with_offset else 'recorded paths under <root>, no offset'}): the uninstall set is {got}; "
                                                             f"the package recorded {want} and all of them are on disk under the root"})
+        # a listed directory that is gone from the live root, next to listed entries whose names merely begin like it (opt/app vs opt/app-data)
+        for gone_dir in ("opt/app", "usr/lib", "opt"):
+            for with_offset in (True, False):
+                cases += 1
+                src, root = os.path.join(scratch, f"gs-{gone_dir.replace('/', '_')}{int(with_offset)}"), os.path.join(scratch, f"gr-{gone_dir.replace('/', '_')}{int(with_offset)}")
+                for n in ("opt/app/bin/tool", "opt/app/README", "opt/app-data/db", "opt/app.conf", "opt/apps/x", "usr/lib/libx.so", "usr/lib64/liby.so", "usr/libexec/helper", "optional"):
+                    os.makedirs(os.path.dirname(os.path.join(src, n)), exist_ok=True)
+                    open(os.path.join(src, n), "w").write(n)
+                recorded = contents.contentsSet(livefs.scan(src, offset=src))
+                os.makedirs(root)
+                ops.merge_contents(recorded, offset=root)
+                shutil.rmtree(os.path.join(root, gone_dir))
+                pkg = _types.SimpleNamespace(contents=recorded if with_offset else recorded.insert_offset(root), cpvstr="cat/pkg-1")
+                tmp = os.path.join(scratch, f"gt-{gone_dir.replace('/', '_')}{int(with_offset)}")
+                os.makedirs(tmp)
+                model = {"recorded": sorted(x.location for x in recorded), "offset": root if with_offset else None, "directory_missing_on_disk": "/" + gone_dir}
+                try:
+                    eng = engine.MergeEngine.uninstall(tmp, pkg, offset=root if with_offset else None, observer=_Obs(), disable_plugins=True)
+                    got = sorted(os.path.relpath(x.location, root) for x in eng.csets["uninstall"])
+                except Exception as e:
+                    if len(fails) < 4:
+                        fails.append({"model": model, "detail": f"MergeEngine.uninstall with /{gone_dir} missing raised {type(e).__name__}: {e}"})
+                    continue
+                want = sorted(x.location.lstrip("/") for x in recorded if not (x.location.lstrip("/") == gone_dir or x.location.lstrip("/").startswith(gone_dir + "/")))
+                if got != want and len(fails) < 4:
+                    fails.append({"model": model, "detail": f"MergeEngine.uninstall with the listed directory /{gone_dir} gone from the root: the uninstall set lacks {sorted(set(want) - set(got))} and has {sorted(set(got) - set(want))} too much; "
+                                                            "every recorded entry that is on disk belongs in it"})
+        # the old package recorded its file through a directory that is a symlink on the live root (usr/lib -> lib64), the new package
+        # records the same file under the real directory: after the replacement the new package's file must be there
+        for link, real_ in (("usr/lib", "lib64"), ("lib", "usr/lib")):
+            cases += 1
+            root = os.path.join(scratch, f"sl-{link.replace('/', '_')}")
+            realdir = os.path.normpath(os.path.join(root, os.path.dirname(link), real_))
+            os.makedirs(realdir)
+            os.makedirs(os.path.dirname(os.path.join(root, link)), exist_ok=True)
+            os.symlink(real_, os.path.join(root, link))
+            open(os.path.join(realdir, "x"), "w").write("old content")
+            rel_real = os.path.relpath(realdir, root)
+            old = contents.contentsSet([F_.fsDir("/" + link, strict=False), F_.fsFile(f"/{link}/x", strict=False)] + [F_.fsDir("/" + d, strict=False) for d in _parents(link)])
+            new_src = os.path.join(scratch, f"sln-{link.replace('/', '_')}")
+            os.makedirs(os.path.join(new_src, rel_real))
+            open(os.path.join(new_src, rel_real, "x"), "w").write("new content")
+            new = contents.contentsSet(livefs.scan(new_src, offset=new_src))
+            model = {"live_root": {link: f"symlink -> {real_}", rel_real + "/x": "file"}, "old": sorted(x.location for x in old), "new": sorted(x.location for x in new), "removed_through_a_directory_symlink": True}
+            try:
+                ops.merge_contents(new, offset=root)
+                remove = engine.MergeEngine.get_remove_cset(None, {"old_cset": old.insert_offset(root), "install": new.insert_offset(root)})
+                triggers.BaseSystemUnmergeProtection().trigger(type("E", (), {"offset": root})(), remove)
+                ops.unmerge_contents(remove)
+            except Exception as e:
+                fails.append({"model": model, "detail": f"replacement through the directory symlink {link} -> {real_} raised {type(e).__name__}: {e}"})
+                continue
+            fp = os.path.join(realdir, "x")
+            if not os.path.exists(fp) or open(fp).read() != "new content":
+                fails.append({"model": model, "detail": f"replacing a package that recorded /{link}/x (with /{link} a symlink to {real_} on the live root) by one that records /{rel_real}/x: "
+                                                        f"afterwards /{rel_real}/x {'is gone' if not os.path.exists(fp) else 'holds ' + repr(open(fp).read())} -- the removal set compares recorded paths as text, so the old name of the same file is unlinked after the merge"})
         # protected base paths recorded as symlinks (merged-usr / multilib roots: /lib -> lib64, /bin -> usr/bin) or as directories
         from pkgcore.fs import fs as F
         for kind in ("dir", "sym"):
@@ -293,13 +408,13 @@ def enum_unmerges(seed):
     finally:
         shutil.rmtree(scratch, ignore_errors=True)
     return {"name": "C20.unmerges.bounded_enumeration", "bound": "40 seeded scratch roots: an old package of 3..6 of 9 entries (files, hardlinks, symlinks, fifos, nested directories under usr / etc / opt) merged, "
-            "optionally a replacing package of 4 entries merged over it, foreign files dropped into shared directories, then get_remove_cset + BaseSystemUnmergeProtection + unmerge_contents; snapshots compared; 6 roots x the engine's uninstall set with and without an offset; 8 roots whose protected base path (/lib, /bin, /usr/lib, /sbin) is recorded as a directory or as a symlink", "cases": cases, "failures": fails}
+            "optionally a replacing package of 4 entries merged over it, foreign files dropped into shared directories, then get_remove_cset + BaseSystemUnmergeProtection + unmerge_contents; snapshots compared; 6 roots x the engine's uninstall set with and without an offset; 3 roots with a listed directory gone next to entries whose names begin like it; 8 roots whose protected base path (/lib, /bin, /usr/lib, /sbin) is recorded as a directory or as a symlink", "cases": cases, "failures": fails}
 
 
 def tasks():
     return [
         Task("C20.unmerge_contents", t_unmerge, [(OPS, "unmerge_contents")], bounded={"entries per contents set": 5, "note": "5 fixed sets x offsets x rmdir outcomes"}),
-        Task("C20.csets", t_csets, [(ENG, "MergeEngine.get_remove_cset"), (ENG, "MergeEngine.get_replace_cset")]),
+        Task("C20.csets", t_csets, [(ENG, "MergeEngine.get_remove_cset"), (ENG, "MergeEngine.get_replace_cset")], bounded={"scenarios for get_remove_cset": 8, "note": "explicit contents sets over a ghost root with two directory symlinks"}),
         Task("C20.BaseSystemUnmergeProtection", t_protection, [(TRG, "BaseSystemUnmergeProtection.__init__"), (TRG, "BaseSystemUnmergeProtection.trigger")], enumerate=enum_unmerges),
     ]
 
